@@ -33,7 +33,7 @@ package stun
 //@ func (*MessageType).ReadValue
 //@   mode bv
 //@   safety C01 C19
-//@   props C01 C02 C19
+//@   props C01 C02 C03 C19
 //@   requires t != nil
 //@   assigns *t
 //@   ensures t.Class == mtype_class(v)
